@@ -520,7 +520,7 @@ class SizeFlow:
             elif nm.endswith('utils::write_variable_length'):
                 ev = ('varint', vil(sf.lin(cargs[0])), 'write_variable_length', cargs[0])
             elif trait == 'utils::Encode' and base == 'encode':
-                ev = ('encode', sf.esize(cargs[0], targs[0] if targs else None, t), 'Encode::encode', cargs[0])
+                ev = ('encode', sf.esize(cargs[0], targs[0] if targs else None, t), 'Encode::encode', cargs[0], targs[0] if targs else None)
             elif nm.endswith('EncodeLtd::encode') or re.search(r'EncodeLtd>::encode$', nm):
                 a = ('lsize', norm(cargs[0]))
                 ev = ('nested', Lin.atom(a), 'EncodeLtd::encode', cargs[0], sf.lin(cargs[2]), a)
